@@ -718,18 +718,24 @@ func c04Decoder(c *Ctx) {
 				enough = true // codeLen <= pending bits
 			}
 		}
-		for _, x := range in.Block().Instrs {
-			if b, ok := x.(*ssa.BinOp); ok && b.Op == token.SUB && Term(b.Y) == node+".codeLen" {
-				consumed = true
-			}
+		// path statement: from the WriteByte site every path to the next symbol (the next child load or WriteByte)
+		// or to an accepting return passes `pending -= node.codeLen`; error returns are excepted.
+		stops := map[ssa.Instruction]bool{}
+		for _, k := range kids {
+			stops[k] = true
 		}
+		for _, w := range wb {
+			stops[w] = true
+		}
+		consumedWhy := c04ConsumedAfter(in, node+".codeLen", stops)
+		consumed = consumedWhy == ""
 		switch {
 		case !isLeaf:
 			why = "WriteByte is not guarded by children == nil of the same node"
 		case !enough:
 			why = "WriteByte is reachable with fewer pending bits than the leaf's codeLen"
 		case !consumed:
-			why = "codeLen bits are not consumed after WriteByte"
+			why = "codeLen bits are not consumed after WriteByte (" + consumedWhy + ")"
 		}
 	}
 	c.Check(why == "", rule, "a symbol is emitted only for a leaf with enough pending bits, then codeLen bits are consumed", fn.Pos(), fmt.Sprintf("%d sites", len(wb)), why)
@@ -774,4 +780,62 @@ func c04Decoder(c *Ctx) {
 		}
 	}
 	c.Check(why == "", rule, "acceptance requires at most 7 leftover bits, all ones", fn.Pos(), fmt.Sprintf("%d nil return(s)", len(rets)), why)
+}
+
+// c04ConsumedAfter walks every path that starts right after instruction `from`. A path is fine when it passes a
+// subtraction `x - <lenTerm>` whose result is used (the pending-bit count is reduced by the code length) or ends in an
+// error return. It is not fine when it reaches one of the `stops` instructions (the next symbol is looked up or written)
+// or an accepting (nil) return first. The empty string means every path is fine.
+func c04ConsumedAfter(from ssa.Instruction, lenTerm string, stops map[ssa.Instruction]bool) string {
+	type start struct {
+		b *ssa.BasicBlock
+		i int
+	}
+	fb := from.Block()
+	idx := -1
+	for i, x := range fb.Instrs {
+		if x == from {
+			idx = i
+		}
+	}
+	if idx < 0 {
+		return "site not found in its block"
+	}
+	seen := map[*ssa.BasicBlock]bool{}
+	work := []start{{fb, idx + 1}}
+	for len(work) > 0 {
+		w := work[len(work)-1]
+		work = work[:len(work)-1]
+		done := false
+		for _, x := range w.b.Instrs[w.i:] {
+			if b, ok := x.(*ssa.BinOp); ok && b.Op == token.SUB && Term(b.Y) == lenTerm && b.Referrers() != nil && len(*b.Referrers()) > 0 {
+				done = true
+				break
+			}
+			if stops[x] {
+				return "the next symbol is reached without the subtraction"
+			}
+			if r, ok := x.(*ssa.Return); ok {
+				if len(r.Results) == 0 || Term(r.Results[len(r.Results)-1]) == "nil" {
+					return "an accepting return is reached without the subtraction"
+				}
+				done = true
+				break
+			}
+			if _, ok := x.(*ssa.Panic); ok {
+				done = true
+				break
+			}
+		}
+		if done {
+			continue
+		}
+		for _, s := range w.b.Succs {
+			if !seen[s] {
+				seen[s] = true
+				work = append(work, start{s, 0})
+			}
+		}
+	}
+	return ""
 }
